@@ -401,6 +401,27 @@ def r07_8(ctx):
         ctx.check(f"explicit register {name}: width", width == exp, str(sorted(map(str, exp))), str(sorted(map(str, width or []))), fn_where(idx, fi))
 
 
+def assignment_marks_target_written(ctx):
+    """every form of assignment marks its register target as written (the READ block declares the operand of a written register; a
+    compound assignment writes its target like a plain one)"""
+    idx = get_index(ctx.env)
+    fa = idx.resolve_method("Assignment", "__init__")
+    ctx.need(fa is not None, "Assignment.__init__ not found")
+    for tname, tval in sorted(idx.enum_table("AssignmentType").items()):
+        for rname, kw, acc0 in (("pc", {"is_alias": True}, "R"), ("R31", {"is_explicit": True}, "UNKNOWN"), ("Rx", {}, "R")):
+            box = {}
+            def once4(i, tname=tname, tval=tval, rname=rname, kw=kw, acc0=acc0):
+                o = reg_obj(rname, acc0, idx, **kw)
+                o.fields["type"] = EnumV("PureType", "GLOBAL", idx.enum_table("PureType").get("GLOBAL"))
+                box["o"] = o
+                node = AObj("Assignment", {}, label="node")
+                i.call_function(fa, ["n", EnumV("AssignmentType", tname, tval), o, mk_pure("src", mk_vt("ts", True, 32))], self_obj=node)
+                return o.fields.get("access")
+            outs = Interp(idx).explore(once4)
+            got = sorted({o.value.member if o.kind == "return" and isinstance(o.value, EnumV) else "RAISE" for o in outs})
+            ctx.check(f"{rname} {tval} ...: the target is marked as written", bool(got) and all(g in ("W", "RW", "PW", "PRW") for g in got), "a write access class", str(got), fn_where(idx, fa), nontrivial=(tname != "ASSIGN"))
+
+
 @rule("R07.9", "C07", "register read/initialise decision table over access class, Rx operands and write-only registers", min_instances=12)
 def r07_9(ctx):
     idx = get_index(ctx.env)
@@ -479,6 +500,7 @@ def r07_9(ctx):
             obs = sorted({normalise(outcome_text(o)) for o in outs})
             ok = bool(obs) and not any("true" in x for x in obs) and not any(o.kind == "raise" for o in outs)
             ctx.check(f"{name}{'++' if hname == 'INC' else '--'}: the operand is read as the old value", ok, "READ_REG(..., false) or the variable initialised from it", str(obs)[:140], fn_where(idx, fpi), nontrivial=bool(kw))
+    assignment_marks_target_written(ctx)
     # who marks a register as written: the assignment that writes it, nobody else (the mark decides whether reads are .new reads)
     callers = sorted(fi.qual for fi in idx.funcs.values() if ".Tests" not in fi.module and fi.qual != "Register.add_write_property"
                      and any(isinstance(n, ast.Call) and call_tail(n) == "add_write_property" for n in ast.walk(fi.node)))
